@@ -49,6 +49,19 @@ func txcommit(prod int, g, t string, p int32, off int64) Step {
 }
 func end(prod int, c bool) Step { return Step{Op: "end", Prod: prod, Commit: c} }
 
+// big: a produce whose batch is pad bytes larger (see craftBatchPad).
+func big(prod int, t string, p int32, n, pad int) Step {
+	return Step{Op: "produce", Prod: prod, Topic: t, Part: p, N: n, Pad: pad}
+}
+func cfgSet(t, key, val string) Step { return Step{Op: "cfg", Topic: t, Key: key, Val: val} }
+func cfgDel(t, key string) Step      { return Step{Op: "cfg", Topic: t, Key: key, Del: true} }
+func cfgLegacy(t, key, val string) Step {
+	return Step{Op: "cfg", Topic: t, Key: key, Val: val, Legacy: true}
+}
+func cfgLegacyEmpty(t string) Step { return Step{Op: "cfg", Topic: t, Legacy: true, Del: true} }
+
+const maxBytesKey = "max.message.bytes"
+
 // fixedScripts are the quick-sized workloads whose whole crash space is
 // enumerated. The first quickScripts of them run in the quick tier.
 var fixedScripts = []Script{
@@ -447,7 +460,7 @@ func (m *Model) acksUpTo(k int) int {
 			}
 		}
 	}
-	return n
+	return n + m.cfgAcksUpTo(k)
 }
 
 // failure is what a case evaluation reports back to the test goroutine.
@@ -611,6 +624,19 @@ func (e *explorer) evalWith(c Case, restart, second, strict bool) *failure {
 	case c.K > e.m.CloseStart:
 		ev.Class("crash_during_clean_close")
 	}
+	if e.m.cfgAcksUpTo(c.K) > 0 || len(e.m.CfgBase) > 0 {
+		ev.Class("config_altered_before_restart")
+	}
+	if e.m.oversizedAt(c.K) {
+		ev.Class("batch_larger_than_later_max_message_bytes")
+	}
+	for _, h := range e.m.Cfgs {
+		for _, ca := range h {
+			if ca.Sent < c.K && ca.Ack > c.K {
+				ev.Class("crash_with_config_change_in_flight")
+			}
+		}
+	}
 	if e.onCase != nil {
 		e.onCase(c)
 	}
@@ -736,6 +762,16 @@ func (e *explorer) checkClean() *failure {
 	}
 	if len(e.live.Probes) > 0 {
 		ev.Class("clean_close_with_idempotent_probe")
+	}
+	if len(e.live.Cfgs) > 0 {
+		ev.Class("clean_close_with_explicit_topic_config")
+	}
+	if e.m.cfgAcksUpTo(c.K) > 0 || len(e.m.CfgBase) > 0 {
+		ev.Class("config_altered_before_restart")
+	}
+	if e.m.oversizedAt(c.K) {
+		ev.Class("batch_larger_than_later_max_message_bytes")
+		ev.Class("clean_close_with_batch_larger_than_max_message_bytes")
 	}
 	if n := len(e.l.Dirty(len(e.l.Ops))); n > 0 {
 		ev.ClassN("files_left_unsynced_by_clean_close(not asserted)", int64(n))
@@ -916,6 +952,8 @@ func genScript(t *rapid.T) Script {
 	var created []string
 	inTxn := make([]bool, nprod)
 	next := map[string]int64{} // commit offsets grow per key so every commit is distinguishable
+	limit := map[string]int{}  // max.message.bytes the cfg steps so far leave on the topic (0: not set)
+	var bigTopics []string     // topic of every padded produce so far
 	nsteps := rapid.IntRange(3, 24).Draw(t, "nsteps")
 	s.Steps = append(s.Steps, topic(names[0], int32(rapid.IntRange(1, 3).Draw(t, "parts0"))))
 	counts[names[0]] = s.Steps[0].Parts
@@ -925,7 +963,7 @@ func genScript(t *rapid.T) Script {
 		return tn, int32(rapid.IntRange(0, int(counts[tn])-1).Draw(t, "part"))
 	}
 	for len(s.Steps) < nsteps {
-		switch rapid.IntRange(0, 9).Draw(t, "op") {
+		switch rapid.IntRange(0, 12).Draw(t, "op") {
 		case 0:
 			if len(created) < len(names) {
 				n := names[len(created)]
@@ -943,7 +981,16 @@ func genScript(t *rapid.T) Script {
 		case 2, 3, 4, 5:
 			p := rapid.IntRange(0, nprod-1).Draw(t, "prod")
 			tn, pt := pickTP()
-			s.Steps = append(s.Steps, produce(p, tn, pt, rapid.IntRange(1, 4).Draw(t, "n")))
+			st := produce(p, tn, pt, rapid.IntRange(1, 4).Draw(t, "n"))
+			// about every second batch is 300..1500 bytes larger (if the topic's limit, as
+			// far as the script sets one, admits it: unpadded batches stay below 256)
+			if rapid.Bool().Draw(t, "padded") {
+				if pad := rapid.IntRange(300, 1500).Draw(t, "pad"); limit[tn] == 0 || pad+260 <= limit[tn] {
+					st.Pad = pad
+					bigTopics = append(bigTopics, tn)
+				}
+			}
+			s.Steps = append(s.Steps, st)
 			if s.Prods[p] == prodTxn {
 				inTxn[p] = true
 			}
@@ -968,6 +1015,42 @@ func genScript(t *rapid.T) Script {
 			if inTxn[p] {
 				s.Steps = append(s.Steps, end(p, rapid.Bool().Draw(t, "commit")))
 				inTxn[p] = false
+			}
+		case 10, 11, 12:
+			// change the topic's configuration; limits never go below 256 bytes, so
+			// every unpadded batch (and the oracle's post-recovery produce) still fits
+			tn := rapid.SampledFrom(created).Draw(t, "topic")
+			if len(bigTopics) > 0 && rapid.IntRange(0, 2).Draw(t, "ofbig") < 2 {
+				// mostly a topic that holds a padded batch (the latest ones first)
+				tn = bigTopics[len(bigTopics)-1-rapid.IntRange(0, len(bigTopics)-1).Draw(t, "bigtopic")]
+			}
+			other := [][2]string{{"retention.ms", "-1"}, {"min.insync.replicas", "1"}, {"segment.bytes", fmt.Sprint(rapid.IntRange(1, 400).Draw(t, "topicsegbytes"))}}
+			switch rapid.IntRange(0, 9).Draw(t, "cfgkind") {
+			case 0, 1, 2: // lower
+				limit[tn] = rapid.IntRange(256, 384).Draw(t, "maxbytes")
+				s.Steps = append(s.Steps, cfgSet(tn, maxBytesKey, fmt.Sprint(limit[tn])))
+			case 3: // AlterConfigs: the configuration becomes exactly this limit
+				limit[tn] = rapid.IntRange(256, 4096).Draw(t, "maxbytes")
+				s.Steps = append(s.Steps, cfgLegacy(tn, maxBytesKey, fmt.Sprint(limit[tn])))
+			case 4: // raise
+				limit[tn] = rapid.IntRange(2048, 8192).Draw(t, "maxbytes")
+				s.Steps = append(s.Steps, cfgSet(tn, maxBytesKey, fmt.Sprint(limit[tn])))
+			case 5:
+				limit[tn] = 0
+				s.Steps = append(s.Steps, cfgDel(tn, maxBytesKey))
+			case 6:
+				limit[tn] = 0
+				s.Steps = append(s.Steps, cfgLegacyEmpty(tn))
+			case 7:
+				limit[tn] = 0
+				kv := rapid.SampledFrom(other).Draw(t, "cfgkey")
+				s.Steps = append(s.Steps, cfgLegacy(tn, kv[0], kv[1]))
+			case 8:
+				kv := rapid.SampledFrom(other).Draw(t, "cfgkey")
+				s.Steps = append(s.Steps, cfgSet(tn, kv[0], kv[1]))
+			case 9:
+				kv := rapid.SampledFrom(other).Draw(t, "cfgkey")
+				s.Steps = append(s.Steps, cfgDel(tn, kv[0]))
 			}
 		}
 	}
